@@ -1388,6 +1388,14 @@ func (c *Ctx) strCompare(op token.Token, a, b SliceV, st *State) Val {
 		}
 		return Scalar{c.def("cmp", boolSort, t), boolSort}
 	}
+	if (oka || okb) && (op == token.EQL || op == token.NEQ) {
+		// comparison with a string constant: one uninterpreted predicate per constant (shared with the contract evaluator)
+		t := c.strIsConst(st, a, b, oka, ida, idb)
+		if op == token.NEQ {
+			t = not(t)
+		}
+		return Scalar{c.def("cmp", boolSort, t), boolSort}
+	}
 	if op == token.EQL || op == token.NEQ {
 		// extensional: equal length and equal content (quantifier-free over-approximation via an uninterpreted predicate tied to length)
 		c.declareFun("StrEq", "("+c.byteArrSort()+" "+c.idx().smt()+" "+c.byteArrSort()+" "+c.idx().smt()+" "+c.idx().smt()+") Bool")
@@ -1600,4 +1608,15 @@ func (c *Ctx) assumeRange(t string, s Sort) {
 	} else {
 		c.assume(fmt.Sprintf("(and (<= 0 %s) (< %s %s))", t, t, new(big.Int).Lsh(big.NewInt(1), uint(s.W))))
 	}
+}
+
+// strIsConst: "the string equals the constant with this id" as an uninterpreted predicate of the string's content
+func (c *Ctx) strIsConst(st *State, a, b SliceV, aConst bool, ida, idb int) string {
+	o, id := a, idb
+	if aConst {
+		o, id = b, ida
+	}
+	fn := fmt.Sprintf("StrIs%d", id)
+	c.declareFun(fn, "("+c.byteArrSort()+" "+c.idx().smt()+" "+c.idx().smt()+") Bool")
+	return and("(= "+o.Len+" "+c.ilit(int64(len(internRev[id])))+")", "("+fn+" "+c.sliceArr(st, o)+" "+o.Off+" "+o.Len+")")
 }
